@@ -265,6 +265,16 @@ func values(thorough bool) []Val {
 	add("vt.Deep", "vt.Deep{P: &vt.S{G: &vt.Inner{X: 1}, E: ptr(2)}, L: []*vt.Inner{{X: 1}, nil, {}}, M: map[string]*vt.S{\"a\": {A: 1}, \"z\": nil}}")
 	add("vt.Deep", "vt.Deep{}")
 	add("*vt.Deep", "ptr(vt.Deep{L: []*vt.Inner{}})")
+	// ONE pointer stored at several places of one value (aliasing inside the input is not part of the value:
+	// every place must render what it points to)
+	for _, e := range elems {
+		pt := "*" + e.typ
+		add("[]"+pt, "func(p "+pt+") []"+pt+" { return []"+pt+"{p, p, nil, p} }(ptr("+e.a+"))")
+		add("map[string]"+pt, "func(p "+pt+") map[string]"+pt+" { return map[string]"+pt+"{\"a\": p, \"b\": p} }(ptr("+e.b+"))")
+		add("[2]"+pt, "func(p "+pt+") [2]"+pt+" { return [2]"+pt+"{p, p} }(ptr("+e.a+"))")
+		add("[]["+"]"+pt, "func(p "+pt+") [][]"+pt+" { return [][]"+pt+"{{p}, {p, p}} }(ptr("+e.zero+"))")
+	}
+	add("vt.Deep", "func(p *vt.Inner, q *int) vt.Deep { return vt.Deep{P: &vt.S{G: p, E: q}, L: []*vt.Inner{p, p}, M: map[string]*vt.S{\"a\": {G: p, E: q}, \"b\": {E: q}}} }(&vt.Inner{X: 1}, ptr(2))")
 	// depth 2 containers
 	for _, e := range elems {
 		if !thorough && e.typ != "int" && e.typ != "vt.Inner" && e.typ != "vt.MyString" {
